@@ -4,7 +4,7 @@
    Quantification: JSON bodies, fn lists, handler lists with their filter oracles, delays, label sequences and the
    oracles inside the labels are unbounded. *)
 From Coq Require Import ZArith List String Bool Ascii.
-From KV Require Import Base.Json Base.Dicts Model.Finalizers Proofs.Finalizers.
+From KV Require Import Base.Json Base.Dicts Model.Finalizers Proofs.Finalizers Proofs.FinalizersLts.
 Import ListNotations.
 Open Scope string_scope.
 Open Scope list_scope.
@@ -97,3 +97,98 @@ Print Assumptions C06_release_when_finished.
 Theorem C06_dedicated_pass : forall a, (In FBlock (o_fns (fz_decide a)) \/ fz_rem a = true) -> o_changing (fz_decide a) = false.
 Proof. exact fz_dedicated_pass. Qed.
 Print Assumptions C06_dedicated_pass.
+
+(* ====================================================================================== *)
+(* The life of one object's finalizer list: every interleaving of foreign finalizer edits, label/spec edits
+   (LMatch), deletion requests, event deliveries, processing cycles with arbitrary oracles (other handlers'
+   requirements and delays, consistency, handler outcomes), the two requests of patch_obj with 422s in between,
+   daemon exits/abandonment and operator restarts.  One mandatory deletion handler H and one daemon D are followed;
+   all others are oracles - so each statement holds for every such handler/daemon. *)
+
+(* for ALL label sequences and ALL configurations (shared ids and filter changes included): at every instant the
+   others' entries on the server are, as a list, what the others last made of them, and no step of the framework
+   (or of anyone but them) changes that list *)
+Theorem C06_foreign_untouched : forall c fins a b tr s,
+  fl_run c (fl_init c fins a b) tr = Some s ->
+  fl_foreign (c_own c) (v_fins (sv s)) = g_foreign s /\
+  (forall l s', fl_step c s l = Some s' -> (forall l', l <> LForeign l') ->
+     fl_foreign (c_own c) (v_fins (sv s')) = fl_foreign (c_own c) (v_fins (sv s))).
+Proof. exact fl_foreign_untouched. Qed.
+Print Assumptions C06_foreign_untouched.
+
+(* The full statement "never removed while a matching mandatory deletion handler has not finished" is false of the
+   faithful model: with H's id shared with a handler of another cause (finding F8) a calm history releases the
+   finalizer of a deleting object although H was never invoked for the deletion ... *)
+Theorem C06_not_released_early_refuted :
+  exists c tr s s', c_shared c = true /\ forallb fl_calm tr = true /\
+    fl_run c (fl_init c [] true false) tr = Some s /\ fl_step c s LJson = Some s' /\
+    fl_releases c s s' = true /\ c_del c = true /\ v_mdel (sv s) = true /\ v_deleting (sv s) = true /\ g_done s = false.
+Proof. exact fl_not_released_early_refuted. Qed.
+Print Assumptions C06_not_released_early_refuted.
+
+(* ... and it holds for every history in which ids are not shared between causes and the filters' verdicts on the
+   object do not change: whenever an accepted request of the framework takes the own finalizer off, H - if it
+   matches - was invoked for the deletion and finished, and D is neither running nor being stopped *)
+Theorem C06_not_released_early_partial : forall c, c_shared c = false -> forall fins a b tr s s',
+  forallb fl_calm tr = true -> fl_run c (fl_init c fins a b) tr = Some s ->
+  fl_step c s LJson = Some s' -> fl_releases c s s' = true ->
+  (c_del c = true -> v_mdel (sv s) = true -> g_done s = true) /\ fl_daemon_live (p_daemon s) = false.
+Proof. exact fl_not_released_early_partial. Qed.
+Print Assumptions C06_not_released_early_partial.
+
+(* the second hypothesis is necessary as well: a release decided while H did not match is carried over a 422 and
+   lands after a label edit made H match again (the decision is not re-evaluated) *)
+Theorem C06_not_released_early_calm_needed :
+  exists c tr s s', c_shared c = false /\
+    fl_run c (fl_init c [] true false) tr = Some s /\ fl_step c s LJson = Some s' /\
+    fl_releases c s s' = true /\ c_del c = true /\ v_mdel (sv s) = true /\ g_done s = false.
+Proof. exact fl_calm_needed. Qed.
+Print Assumptions C06_not_released_early_calm_needed.
+
+(* non-vacuity of the partial theorem: a calm history with an unshared id, a foreign edit and a deletion, in which
+   the release does happen (after H finished) and the foreign entry stays *)
+Theorem C06_not_released_early_nonvacuous :
+  exists s s', forallb fl_calm fl_trace_good = true /\
+    fl_run fl_cfg_plain (fl_init fl_cfg_plain [] true false) fl_trace_good = Some s /\
+    fl_step fl_cfg_plain s LJson = Some s' /\ fl_releases fl_cfg_plain s s' = true /\
+    g_done s = true /\ v_fins (sv s') = ["other"] /\ v_alive (sv s') = true.
+Proof. exact fl_partial_nonvacuous. Qed.
+Print Assumptions C06_not_released_early_nonvacuous.
+
+(* released eventually (enabledness): from EVERY state in which the operator is idle with nothing carried, the
+   object is being deleted and held, and D is neither running nor being stopped - delivering the event and running
+   one cycle in which H (if selected) finishes, the others report nothing, the view is consistent, followed by its
+   two requests with nobody interfering - takes the own finalizer off, leaves the others' entries, carries nothing *)
+Theorem C06_released_eventually : forall c s,
+  p_flight s = FNone -> p_carried s = [] ->
+  v_alive (sv s) = true -> v_deleting (sv s) = true -> fl_mem (c_own c) (v_fins (sv s)) = true ->
+  fl_daemon_live (p_daemon s) = false ->
+  exists s', fl_run c s [LEvent; LCycle (fl_k_quiet true true); LMerge; LJson] = Some s' /\
+             fl_mem (c_own c) (v_fins (sv s')) = false /\
+             v_fins (sv s') = fl_foreign (c_own c) (v_fins (sv s)) /\
+             p_carried s' = [] /\ p_flight s' = FNone.
+Proof. exact fl_released_eventually. Qed.
+Print Assumptions C06_released_eventually.
+
+(* never added while deleting, at the level of requests: "the framework never sends a request that adds its
+   finalizer to an object being deleted" is false of the faithful model (a block refused by a 422 is carried and
+   sent again after the deletion started) ... *)
+Theorem C06_add_request_while_deleting_refuted :
+  exists c tr s, fl_run c (fl_init c [] true false) tr = Some s /\ fl_adds_while_deleting c s = true.
+Proof. exact fl_add_request_while_deleting_refuted. Qed.
+Print Assumptions C06_add_request_while_deleting_refuted.
+
+(* ... what holds: no pass ever asks for it (C06_never_added_while_deleting above), and - the API server refusing
+   new finalizers on objects being deleted - no step of anyone but the other owners makes it appear *)
+Theorem C06_add_while_deleting_partial : forall c s l s', fl_step c s l = Some s' ->
+  v_deleting (sv s) = true -> fl_mem (c_own c) (v_fins (sv s)) = false -> (forall l', l <> LForeign l') ->
+  fl_mem (c_own c) (v_fins (sv s')) = false.
+Proof. exact fl_never_added_while_deleting_step. Qed.
+Print Assumptions C06_add_while_deleting_partial.
+
+(* the list-of-names edits used in the life-cycle model are exactly the JSON edits of finalizers.py on bodies whose
+   finalizers are strings *)
+Theorem C06_lists_are_json_edits : forall fin fns body l, fz_wellformed body = true -> fz_fins body = map JStr l ->
+  exists b', fz_apply_fns fin fns body = Ok b' /\ fz_wellformed b' = true /\ fz_fins b' = map JStr (fl_apply_fns fin fns l).
+Proof. exact fz_apply_fns_bridge. Qed.
+Print Assumptions C06_lists_are_json_edits.
